@@ -233,7 +233,7 @@ func init() {
 	Properties["C18"] = PropSpec{
 		Rules:       []Rule{RefBlind, Schemata, KConsistent, ResultAlgebra, ResLinear, GuardScope, ObjectRouting, SliceRouting},
 		Explanation: "SCHEMATA/POST: the per-field and per-item schemata lists of a Result only receive appends to themselves or fresh slices (never the list of a result about to be recycled), every recorded entry holds cloned schemata, an absent member is recorded exactly on (absent, Default != nil, !skipSchemataResult), every schema-validation result — also for nil data — carries its schema as root schemata; ApplyDefaults has a single write, key.Object()[key.Field()] = s.Default, confined to members found absent by a comma-ok lookup of the same object and field, s ranging over that member's schemata with Default != nil, over every recorded member. K-CONSISTENT: each member's result is merged under (container, that member's key). RESULT-ALGEBRA/RES-LINEAR: merges apply their effects once and results are not used after release. Loop exhaustion: the member loop of ApplyDefaults is left only by exhaustion. Copy clause: ApplyDefaults inserts a deep copy of the default (it inserted the schema's own map/slice: fixed).",
-		NotDecided:  "Which anyOf/oneOf alternative's schemata survive, correctness at depth and that no other member appears beyond the single-write shape: value-level. Found by probing, not decided: a default behind a $ref property is not applied (the property schema is tested unexpanded).",
+		NotDecided:  "Which anyOf/oneOf alternative's schemata survive, correctness at depth and that no other member appears beyond the single-write shape: value-level.",
 		Assumptions: []string{trustDeps},
 	}
 	Properties["C19"] = PropSpec{
